@@ -4,6 +4,9 @@ manifest stays valid while checks are added)."""
 import json, os
 ROOT = os.path.dirname(os.path.abspath(__file__))
 CHECKS = {
+ "C18": dict(level="exploration", technique="metamorphic non-interference oracle over all interleavings of small session streams, counter-map reference model of the TSI filter over all operation sequences to a depth, per-(listener, session) trace automaton with call attribution, expiry-race stress",
+     text="All interleavings (or seeded merges) of 2-4 sessions laid out over eight endpoint/TSI geometries must deliver per session exactly what the session delivers alone, with its own endpoint and TSI on every callback; all 24^d sequences of listen operations (d=3 quick, 4 thorough) are probed with 8 packets against a reference filter; thousands of listener scripts (data, close-session, cleanups after real sleeps, drop) and a 300-session expiry stress are judged by an open/close automaton that records the call in progress for every event. Complete for the enumerated interleavings and filter sequences, sampled beyond.",
+     note="trusted: monitoring writer, reference filter, listener automaton; expiry is never assumed absent", ref="DESIGN.md §5 C18"),
  "C17": dict(level="exploration", technique="counting allocator (live heap, slope test, release to baseline) + structural invariant hook verif_stats() at quiescent points, one scenario per single-threaded child process, real sleeps for timeouts",
      text="About 200 (quick) / 1500 (thorough) scenarios of undecodable traffic - cached packets without FDT, many cached objects, decoded blocks waiting behind block 0 for four schemes, FDT ids that never complete, hundreds of idle sessions, failing objects, many FDT instances - over cache sizes 1 KiB..default, error-list lengths, timeouts and traffic scales; after every batch the hook exposes per-object cached bytes, waiting block bytes, list lengths, and the allocator the live heap; 10x more traffic must not cost more heap, and after 12x the timeouts one cleanup must leave no session, object or unfinished FDT and the heap at baseline. Held on the scenarios run.",
      note="trusted: counting allocator, verif_stats hook (MANIFEST.hooks), wall-clock sleeps with 12x margin", ref="DESIGN.md §5 C17"),
